@@ -84,9 +84,22 @@ def rule_r1(prog, res) -> None:
         if not handles:
             continue
         n_classes += 1
-        for m in ci.methods.values():
+        from ..inline import inlined as _inl
+
+        expanded_here: set = set()
+        analysed = []
+        for m0 in ci.methods.values():
+            try:
+                m1 = _inl(prog, m0, keep={"_get_next_chunk", "_load_groups", "_extract_chunk", "get_probe"}, desugar=True)
+            except Exception:  # noqa: BLE001
+                m1 = m0
+            expanded_here |= set(getattr(m1, "inlined_helpers", []))
+            analysed.append((m0, m1))
+        for m0, m in analysed:
+            if m0.qualname in expanded_here and m0.name.startswith("_") and not m0.name.startswith("__"):
+                continue  # a private helper that was expanded into the methods that call it is judged there
             pm = None
-            subs = [m] + [f for f in m.module.all_funcs if f.parent is m]
+            subs = [m] + [f for f in m0.module.all_funcs if f.parent is m0]
             for f in subs:
                 pm = parents_map(f.node)
                 for x in walk_no_nested(f.node):
@@ -376,7 +389,15 @@ def rule_r2(prog, res) -> None:
         if m is None or m.is_abstract:
             continue
         seen_nodes = set()
-        for ev in sliced_reads(m):
+        # callables handed to a shared chunk builder (lambda / functools.partial over a module helper) and the helper
+        # methods of the reader are expanded in place first, so that the slice is seen where it is taken
+        from ..inline import inlined as _inl
+
+        try:
+            m_an = _inl(prog, m, keep={"_get_next_chunk", "_load_groups", "_extract_chunk"}, desugar=True)
+        except Exception:  # noqa: BLE001
+            m_an = m
+        for ev in sliced_reads(m_an):
             x = ev.expr
             first = id(ev.node) not in seen_nodes
             seen_nodes.add(id(ev.node))
@@ -472,16 +493,19 @@ def rule_r2(prog, res) -> None:
 def _check_last_chunk(prog, res, g: FuncInfo, N: str, C: str) -> None:
     """paths through the (loop-free) function; size handed to the generator is C on full chunks
     and C - (N - total) once the counter passed the total"""
+    from .. import symx
+
+    # decided on the symbolic store: helper methods of the reader (size of the next chunk, end-of-data test) are looked through
+    paths = [p for p in symx.explore(prog, g, inline=lambda caller, call, callee: callee.cls is not None and callee.name not in ("_get_next_chunk", "get_probe", "__call__")) if p.outcome == "return"]
     total = None
-    for x in ast.walk(g.node):
-        if isinstance(x, ast.Attribute) and "num_records" in x.attr:
-            total = unparse(x)
+    for p in paths:
+        for e in [t for t, _ in p.literals()] + ([p.value] if p.value is not None else []):
+            for x in ast.walk(e):
+                if isinstance(x, ast.Attribute) and "num_records" in x.attr:
+                    total = unparse(x)
     if total is None:
         res.violation("C18.R2", g, g.node, "the random reader never compares its counter with the requested number of records: the last chunk is not truncated and the catalog is larger than requested", key_extra="random-no-truncation")
         return
-    from .. import symx
-
-    paths = [p for p in symx.explore(prog, g, inline=lambda caller, call, callee: callee.cls is not None and callee.name not in ("_get_next_chunk", "get_probe", "__call__")) if p.outcome == "return"]
     if not paths:
         raise AnalysisError("C16.R4: random reader returns nothing")
     for p in paths:
@@ -575,9 +599,16 @@ def rule_r3(prog, res) -> None:
         raise AnalysisError("C18.R3: DataReader.get_probe vanished")
     res.touch(gp)
     # the pass may live in a closure / generator defined inside get_probe that is used exactly once
+    # … or in a private helper (method of the reader / function of the module) that get_probe calls
     inner = [f for f in gp.module.all_funcs if f.parent is gp]
-    loops = [x for f in [gp, *inner] for x in walk_no_nested(f.node) if isinstance(x, (ast.For, ast.comprehension)) and "self" in unparse(x.iter)]
+    helpers = []
+    for c in calls_in(gp):
+        for t in prog.resolve_call(gp, c).funcs():
+            if t.module is gp.module and t.name.startswith("_") and not t.name.startswith("__") and t is not gp and t not in helpers and t not in inner:
+                helpers.append(t)
+    loops = [x for f in [gp, *inner, *helpers] for x in walk_no_nested(f.node) if isinstance(x, (ast.For, ast.comprehension)) and "self" in unparse(x.iter)]
     uses = {f.name: [c for c in calls_in(gp) if isinstance(c.func, ast.Name) and c.func.id == f.name] for f in inner}
+    uses.update({f.name: [c for c in calls_in(gp) if f in prog.resolve_call(gp, c).funcs()] for f in helpers if any(isinstance(x, (ast.For, ast.comprehension)) for x in walk_no_nested(f.node))})
     pmg = parents_map(gp.node)
 
     def in_loop(node) -> bool:
